@@ -123,3 +123,78 @@ func VerifC04EndToEnd() {
 	vrt.Assert(len(out) == len(px) && df == 0, "C04 reversible pipeline: decoded bytes equal source bytes")
 	vrt.Out("len", len(stream))
 }
+
+func init() { vrt.Register("VerifC04Structure", VerifC04Structure) }
+
+var c04Sizes = [][2]int{{9, 9}, {17, 9}, {5, 13}, {16, 16}, {17, 8}, {1, 9}, {33, 33}}
+
+// c04Pixels: fixed pseudo-random contents (LCG), so that every bit-plane is used.
+func c04Pixels(n, seed int) []byte {
+	out := make([]byte, n)
+	state := uint32(0x5EED5EED + seed)
+	for i := range out {
+		state = state*1664525 + 1013904223
+		out[i] = byte(state >> 24)
+	}
+	return out
+}
+
+// VerifC04Structure: the geometric structure of the codestream - precinct
+// grids that are not a multiple of the precinct size, several precincts per
+// resolution, every progression order with 1 and 3 components, code-block
+// sizes, layers, and (tiles=1) tile grids with one-sample-wide tiles under
+// decomposition.  Pixel contents are fixed pseudo-random bytes: what is
+// quantified here is the configuration (one path per configuration; the real
+// encoder, packet writer, parser, packet reader and decoder run in the executor
+// and natively).
+func VerifC04Structure() {
+	sz := c04Sizes[vrt.Choice("size", 0, vrt.Param("nsize", 3)-1)]
+	w, h := sz[0], sz[1]
+	comps := []int{1, 3}[vrt.Choice("comps3", 0, 1)]
+	levels := vrt.Choice("levels", 0, vrt.Param("maxLevels", 1))
+	prog := vrt.Choice("prog", 0, 4)
+	prec := []int{0, 8, 32}[vrt.Choice("prec", 0, vrt.Param("nprec", 2)-1)]
+	cb := []int{4, 8, 64}[vrt.Choice("cb", vrt.Param("cb0", 0), vrt.Param("ncb", 2)-1)]
+	layers := vrt.Choice("layers", 1, vrt.Param("maxLayers", 1))
+	if prec != 0 && prec < cb {
+		vrt.Cut("precinct smaller than the code-block")
+	}
+	p := DefaultEncodeParams(w, h, comps, 8, false)
+	p.NumLevels = levels
+	p.NumLayers = layers
+	p.CodeBlockWidth, p.CodeBlockHeight = cb, cb
+	p.PrecinctWidth, p.PrecinctHeight = prec, prec
+	p.ProgressionOrder = uint8(prog)
+	if vrt.Param("tiles", 0) == 1 {
+		ts := []int{8, 16, 4}[vrt.Choice("tile", 0, 2)]
+		if ts >= w && ts >= h {
+			vrt.Cut("single tile")
+		}
+		p.TileWidth, p.TileHeight = ts, 8
+		if ts>>uint(levels)<<uint(levels) != ts || 8>>uint(levels)<<uint(levels) != 8 {
+			vrt.Cut("tile origin odd at some level (known finding F17)")
+		}
+	}
+	px := c04Pixels(w*h*comps, w+h)
+	stream, err := NewEncoder(p).Encode(px)
+	vrt.Assert(err == nil, "C04 structure: Encode accepts the configuration")
+	if err != nil {
+		return
+	}
+	d := NewDecoder()
+	err = d.Decode(stream)
+	vrt.Assert(err == nil, "C04 structure: Decode accepts the encoder's codestream")
+	if err != nil {
+		return
+	}
+	vrt.Assert(d.Width() == w && d.Height() == h && d.Components() == comps && d.BitDepth() == 8, "C04 structure: decoder reports the same geometry and precision")
+	out := d.GetPixelData()
+	df := 0
+	if len(out) == len(px) {
+		for i := range px {
+			df |= int(out[i] ^ px[i])
+		}
+	}
+	vrt.Assert(len(out) == len(px) && df == 0, "C04 structure: decoded bytes equal source bytes")
+	vrt.Out("len", len(stream))
+}
